@@ -78,6 +78,9 @@ def gen_capset(rng, min_cues=1):
         if rng.random() < 0.06 and (k + 1 < nl or any(c for _, c in cs)):
             n = 0                   # a language without cues (also as the first language); never all of them
         cues = [[s, e, "%s cue %d" % (l.replace("-", ""), i)] for i, (s, e) in enumerate(gen_times(rng, n, shape, k))]
+        if cues and cues[0][0] >= 1000 and rng.random() < 0.12:
+            # a cue ending in millisecond 0: the blank sync at 0 must still be written (last_time = 0 is not None)
+            cues.insert(0, [0, rng.choice([0, 900]), "%s cue zero" % l.replace("-", "")])
         cs.append([l, cues])
     return cs, shape
 
@@ -254,7 +257,46 @@ def stream_jobs(ctx, default):
     for fmt, doc in docs.items():
         for lang in (None, "fr", "zh-Hans", "en"):
             out.append(("E3", {"op": "reader_lang", "fmt": fmt, "doc": doc, "lang": lang}, None, {"fmt": fmt, "lang": lang}))
-    return [(tag, job, make_reqs(tag, info, default), info) for tag, job, _, info in out]
+    out = [(tag, job, make_reqs(tag, info, default), info) for tag, job, _, info in out]
+    return out + history_items(ctx, default)
+
+
+def history_items(ctx, default):
+    """2-3 step write histories on ONE writer object (SAMI, the three DFXP writers, WebVTT) over caption sets with
+    different language lists / orders and interleaved cue times; every document is judged like a single write.
+    Items of one history carry the same "hist" id; run() sends them to the worker as one `history` job."""
+    rng = ctx.rng
+    items = []
+    fixed = [[["en-US", "fr"], ["de", "en-US", "fr"]], [["fr", "en-US"], ["en-US"], ["en-US", "fr", "de"]]]
+    n = ctx.n(40, 600)
+    for h in range(n + len(fixed)):
+        kind = rng.choice(["sami", "sami", "dfxp", "vtt"])
+        steps = rng.randint(2, 3)
+        langlists = fixed[h - n] if h >= n else None
+        writer = rng.choice(["main", "single", "legacy"])
+        for k in range(steps if langlists is None else len(langlists)):
+            cs, shape = gen_capset(rng)
+            if langlists is not None:
+                kind = "sami"
+                cs = [[l, [[s0 + 137000 * i, e0 + 137000 * i, "%s h%d" % (l.replace("-", ""), j)] for j, (s0, e0) in
+                           enumerate(gen_times(rng, 3, "interleaved", i))]] for i, l in enumerate(langlists[k])]
+            elif rng.random() < 0.5:
+                rng.shuffle(cs)
+            if kind == "sami":
+                tag, job, info = "D", {"op": "sami_write", "cs": cs}, {"cs": cs, "shape": shape}
+            elif kind == "dfxp":
+                force = rng.choice([None, "", cs[0][0], "xx"])
+                tag, job = "B", {"op": "dfxp_write", "writer": writer, "force": force, "cs": cs}
+                info = {"cs": start_text(cs), "force": force or "", "writer": writer, "shape": shape}
+            else:
+                pick = rng.choice([None, cs[-1][0]])
+                job = {"op": "vtt_write", "cs": cs}
+                if pick is not None:
+                    job["lang"] = pick
+                tag, info = "E", {"cs": start_text(cs), "pick": pick}
+            info = dict(info, hist=h, step=k)
+            items.append((tag, job, make_reqs(tag, info, default), info))
+    return items
 
 
 def judge(acc, cfg, items, obs, models):
@@ -266,7 +308,9 @@ def judge(acc, cfg, items, obs, models):
         m = models[k:k + len(reqs)]
         k += len(reqs)
         acc.res["evaluations"] += 1
-        acc.count("stream_" + tag)
+        acc.count("stream_" + tag if info.get("hist") is None else "H_history_steps_" + job["op"])
+        if info.get("step"):
+            acc.count("H_later_steps_on_a_used_writer")
         inp = {"config": cfg, "job": job, "tag": tag, "info": info}
         if "err" in o:
             acc.viol("raises", "%s raised %s: %s" % (job["op"], o["err"], o.get("msg", "")), inp, stream=tag)
@@ -412,7 +456,23 @@ def run(ctx):
     acc = Acc()
     for cfg in configs(ctx):
         items = stream_jobs(ctx, cfg["default"])
-        obs = run_worker([it[1] for it in items], cfg["env"], cfg["hashseed"], ctx.repo)
+        jobs, slots = [], []
+        for it in items:
+            h = it[3].get("hist")
+            if h is None:
+                slots.append((len(jobs), None))
+                jobs.append(it[1])
+            elif jobs and jobs[-1].get("op") == "history" and jobs[-1]["hist"] == h:
+                slots.append((len(jobs) - 1, len(jobs[-1]["steps"])))
+                jobs[-1]["steps"].append(it[1])
+            else:
+                slots.append((len(jobs), 0))
+                jobs.append({"op": "history", "hist": h, "steps": [it[1]]})
+        for it, (j, k) in zip(items, slots):
+            if k is not None:
+                it[3]["hist_jobs"] = jobs[j]["steps"][:k + 1]       # for replay: the history up to this step
+        raw = run_worker(jobs, cfg["env"], cfg["hashseed"], ctx.repo)
+        obs = [raw[j] if k is None else raw[j]["steps"][k] for j, k in slots]
         models = oracle_batch([r for it in items for r in it[2]])
         judge(acc, cfg, items, obs, models)
     res = acc.res
@@ -442,7 +502,10 @@ def run(ctx):
 def replay(ctx, rec):
     inp = rec["input"]
     cfg, job, tag, info = inp["config"], inp["job"], inp["tag"], inp["info"]
-    o = run_worker([job], cfg["env"], cfg["hashseed"], ctx.repo)[0]
+    if info.get("hist_jobs"):
+        o = run_worker([{"op": "history", "steps": info["hist_jobs"]}], cfg["env"], cfg["hashseed"], ctx.repo)[0]["steps"][-1]
+    else:
+        o = run_worker([job], cfg["env"], cfg["hashseed"], ctx.repo)[0]
     reqs = make_reqs(tag, info, cfg["default"])
     models = oracle_batch(reqs) if reqs else []
     acc = Acc()
